@@ -244,6 +244,64 @@ def overlapping_validate(v, rows, obs):
     return tr
 
 
+def pairs_family(v, b, variants, variants_p, points_p, d, thorough):
+    """Two mutations at once (ConfigDecodePairs.tla): design-level run + negative control, TLC-generated pairs decoded by the
+    real chain, TraceConfigDecodePairs decides.  quick: `near` pairs; thorough: `broad` pairs as well."""
+    out = {"states": 0, "transitions": 0, "pairs": 0, "decodes": 0}
+    modes = [("near", "")] + ([("broad", "_broad")] if thorough else [])
+    neg = vlib.tlc("ConfigDecodePairs", "ConfigDecodePairs_neg_first.cfg", workers=2, heap="2g", deadlock=False, timeout=900,
+                   env={"VERIF_POINTS": points_p, "VERIF_OUT_PAIRS": os.path.join(d, "pairs_neg.ndjson")})
+    vlib.tlc_must_fail(neg, "ConfigDecodePairs_neg_first")
+    for mode, sfx in modes:
+        pairs_p = os.path.join(d, "pairs_%s.ndjson" % mode)
+        env = {"VERIF_POINTS": points_p, "VERIF_OUT_PAIRS": pairs_p}
+        r = vlib.tlc("ConfigDecodePairs", "ConfigDecodePairs_exh%s.cfg" % sfx, workers=4, heap="4g", deadlock=False, timeout=1800, env=env)
+        vlib.tlc_must_pass(r, "ConfigDecodePairs_exh%s" % sfx)
+        out["states"] += r.distinct
+        out["transitions"] += r.generated
+        if not os.path.exists(pairs_p):
+            raise vlib.MachineryError("pair generation (%s) wrote no file" % mode)
+        pairs = vlib.read_ndjson(pairs_p)
+        if len(pairs) < 100:
+            raise vlib.MachineryError("only %d pairs (%s)" % (len(pairs), mode))
+        obs = os.path.join(d, "obs_pairs_%s.ndjson" % mode)
+        vlib.run_driver(b, ["confdecode", "-variants", variants_p, "-in", pairs_p, "-out", obs, "-cli-stride", "3", "-real-stride", "1000000"],
+                        timeout=1800)
+        rows = vlib.read_ndjson(obs)
+        if len(rows) < 2 * len(pairs):
+            raise vlib.MachineryError("driver ran %d decodes for %d pairs" % (len(rows), len(pairs)))
+        tr = vlib.tlc("TraceConfigDecodePairs", "TraceConfigDecodePairs.cfg", env={"VERIF_TRACE": obs}, cont=True, workers=4, heap="4g",
+                      deadlock=False, timeout=1800)
+        if tr.error:
+            raise vlib.MachineryError("TraceConfigDecodePairs failed: %s\n%s" % (tr.kind, tr.out[-3000:]))
+        if tr.distinct != len(rows) + 1:
+            raise vlib.MachineryError("TraceConfigDecodePairs visited %d states for %d lines" % (tr.distinct, len(rows)))
+        seen = set()
+        for inv, st in tr.all_violations:
+            try:
+                ln = int(st.get("l", "0"))
+            except ValueError:
+                continue
+            if not 1 <= ln <= len(rows):
+                continue
+            row = rows[ln - 1]
+            c1, c2 = row["c"]["c1"], row["c"]["c2"]
+            sig = "pair %s:%s + %s:%s via=%s shape=%s inv=%s" % (c1["kind"], generic_path(c1["p"]), c2["kind"], generic_path(c2["p"]),
+                                                               row["via"], row["shape"], inv)
+            if sig in seen:
+                continue
+            seen.add(sig)
+            v.violation(sig, "two mutations at once (variant %s): %s and %s via %s/%s: real decoding gives %s %s; violates %s of "
+                        "TraceConfigDecodePairs" % (row["c"]["v"], json.dumps({k: c1[k] for k in ("kind", "p", "i", "src", "set")}),
+                                                   json.dumps({k: c2[k] for k in ("kind", "p", "i", "src", "set")}), row["via"], row["shape"],
+                                                   row["out"], row["err"][:200], inv),
+                        replay_obj={"kind": "pair", "invariant": inv, "line": {k: row[k] for k in ("c", "via", "shape", "reg", "out", "err")}},
+                        replay_name="pair_%s_%d_%s.json" % (mode, ln, inv))
+        out["pairs"] += len(pairs)
+        out["decodes"] += len(rows)
+    return out
+
+
 def run(tier, v):
     import time
     t0 = time.time()
@@ -266,6 +324,7 @@ def run(tier, v):
         try:
             conc["design"] = overlapping_design()
             conc["rows"], conc["obs"], conc["g"], conc["rounds"] = overlapping_run(variants_p, d, thorough)
+            conc["pairs"] = pairs_family(v, b, variants, variants_p, points_p, d, thorough)
         except BaseException as ex:      # re-raised in the main thread
             conc["exc"] = ex
     conc_thread = threading.Thread(target=conc_job)
@@ -322,8 +381,8 @@ def run(tier, v):
     if "exc" in conc:
         raise conc["exc"]
     overlapping_validate(v, conc["rows"], conc["obs"])
-    states += conc["design"]["states"]
-    trans += conc["design"]["transitions"]
+    states += conc["design"]["states"] + conc["pairs"]["states"]
+    trans += conc["design"]["transitions"] + conc["pairs"]["transitions"]
     kinds = {}
     for c in cases:
         kinds[c["c"]["kind"]] = kinds.get(c["c"]["kind"], 0) + 1
@@ -342,6 +401,7 @@ def run(tier, v):
                 "map[any]any with the recording registry; every %d-th also through the CLI reader and (non-placeholder, V1/V2) with the real "
                 "constructors; distinct_nontrivial = distinct abstract cases that carry a mutation (kind # none)" % stride,
         "cases_by_kind": kinds, "outcomes": outcomes,
+        "pairs_of_mutations": {"pairs": conc["pairs"]["pairs"], "decodes": conc["pairs"]["decodes"]},
         "overlapping_decodes": {"goroutines": conc["g"], "passes": conc["rounds"],
                                 "sections": len([r_ for r_ in conc["rows"] if r_["kind"] == "section"]),
                                 "decodes": sum(r_.get("n", 0) for r_ in conc["rows"] if r_["kind"] != "race"),
